@@ -454,3 +454,9 @@ def r_latin1(ctx):
     for r in c02.r9(ctx):
         r.rule = "C03-R10"
         yield r
+
+
+@M.rule("C03-R11", "wrappers around the entry point hand the caller's configuration on unchanged")
+def r_wrappers(ctx):
+    for r in wrapper_results(ctx, "C03-R11", (1, 2), VIOL, PASS, 'the scope is checked against / the key is requested for something the caller did not configure'):
+        yield r
